@@ -19,12 +19,27 @@ import (
 // function producing it.
 func (c *Ctx) chanKey(v ssa.Value) string {
 	v = ir.Strip(v)
+	// a channel kept in a field of a struct the function allocates itself and
+	// never hands out: the channel that was stored there
+	if in, ok := v.(ssa.Instruction); ok && in.Block() != nil {
+		if w := ir.ValueAt(v, in.Block()); w != v {
+			if _, isMk := ir.Strip(w).(*ssa.MakeChan); isMk {
+				v = ir.Strip(w)
+			}
+		}
+	}
 	switch x := v.(type) {
 	case *ssa.UnOp:
 		if x.Op == token.MUL {
 			switch a := x.X.(type) {
 			case *ssa.FieldAddr:
 				f := ir.FieldOfAddr(a)
+				// a field that only this function ever stores, once, where
+				// it builds the struct (the struct itself may travel on):
+				// the channel made for it
+				if mk := c.builtHereOnce(a, f); mk != nil {
+					return "local:" + c.typeStr(mk.Type())
+				}
 				return c.fieldKey(a.X.Type(), f)
 			case *ssa.FreeVar:
 				return c.cellKey(a)
@@ -603,4 +618,69 @@ func (c *Ctx) autoBareSend(s blockingSite) (string, string, bool) {
 var countedElsewhere = map[string]string{
 	"(*pushtx.Broadcaster).broadcastHandler|field:broadcastReq.errChan": "C15.G1 (per iteration: one reply iff one Broadcast call)",
 	"(*query.peerWorkManager).workDispatcher|field:batchProgress.errChan": "C12.X1 (a verdict exactly when the batch is deleted)",
+}
+
+// builtHereOnce: fa addresses field f of a struct that fa's function allocates
+// itself (possibly behind result variables whose other values are nil), f is
+// stored exactly once in the whole module - there - and with a channel made
+// in that function: that MakeChan.
+func (c *Ctx) builtHereOnce(fa *ssa.FieldAddr, f *types.Var) *ssa.MakeChan {
+	if f == nil {
+		return nil
+	}
+	var alloc *ssa.Alloc
+	seen := map[ssa.Value]bool{}
+	var find func(v ssa.Value) bool
+	find = func(v ssa.Value) bool {
+		if seen[v] {
+			return true
+		}
+		seen[v] = true
+		switch x := v.(type) {
+		case *ssa.Alloc:
+			if alloc != nil && alloc != x {
+				return false
+			}
+			alloc = x
+			return true
+		case *ssa.Phi:
+			for _, e := range x.Edges {
+				if ir.IsNil(e) {
+					continue
+				}
+				if !find(e) {
+					return false
+				}
+			}
+			return true
+		}
+		return false
+	}
+	if !find(fa.X) || alloc == nil || alloc.Parent() != fa.Parent() {
+		return nil
+	}
+	// module-wide stores of the field
+	n := 0
+	var val ssa.Value
+	for _, fn := range c.P.Funcs {
+		ir.Instrs(fn, func(in ssa.Instruction) {
+			st, ok := in.(*ssa.Store)
+			if !ok {
+				return
+			}
+			a, ok := st.Addr.(*ssa.FieldAddr)
+			if !ok || ir.FieldOfAddr(a) != f {
+				return
+			}
+			n++
+			if a.X == ssa.Value(alloc) {
+				val = st.Val
+			}
+		})
+	}
+	if n != 1 || val == nil {
+		return nil
+	}
+	mk, _ := ir.Strip(val).(*ssa.MakeChan)
+	return mk
 }
